@@ -61,8 +61,25 @@ def run(ctx):
     t = A.norm(ev.node)
     ok = "row = {'seq_num': doc['seq_num'], 'time': doc['time'], **doc['data']}" in t and "row.update({f'ts_{k}': v for k, v in doc['timestamps'].items()})" in t and "data_cache.append(row)" in t
     ctx.ob("C46.D2-batch-write-then-clear", cname(ev, None, "one row per event: seq_num, time, data, ts_ columns"), ok, "" if ok else "row construction changed", where=where(ev, ev.node))
-    ifs = [s for s in ev.node.body if isinstance(s, ast.If) and A.norm(s.test) == "len(data_cache) >= self._batch_size"]
-    ok = bool(ifs) and [A.norm(x) for x in ifs[0].body] == ["self._write_internal_data(data_cache, desc_node=self._desc_nodes[desc_uid])", "data_cache.clear()"]
+    # the write and the clear, in that order, exactly when the batch is full: `if len >= size: write; clear` or the guard form
+    # `if len < size: return` + write; clear (len() is an int, the batch size a number: the two tests are complementary)
+    ge = q.cfg(ev, q.quiet_policy(repo))
+    wr = [s_ for s_ in A.walk_stmts(ev.node.body) if A.norm(s_) == "self._write_internal_data(data_cache, desc_node=self._desc_nodes[desc_uid])"]
+    cl = [s_ for s_ in A.walk_stmts(ev.node.body) if A.norm(s_) == "data_cache.clear()"]
+    ok = len(wr) == 1 and len(cl) == 1
+
+    def full_only(st_):
+        seen_ = ge.reachable([ge.entry], edge_ok=lambda u, v, lab: not (ge.nodes[u].kind == "test" and (
+            (A.norm(ge.nodes[u].ast) in ("len(data_cache) >= self._batch_size", "self._batch_size <= len(data_cache)") and lab == "T") or
+            (A.norm(ge.nodes[u].ast) in ("len(data_cache) < self._batch_size", "self._batch_size > len(data_cache)") and lab == "F"))))
+        return not any(i in seen_ for i in ge.nodes_of(st_))
+    if ok:
+        pm_ = A.parents(ev.node)
+        blk = pm_.get(wr[0])
+        sib = getattr(blk, "body", []) if wr[0] in getattr(blk, "body", []) else getattr(blk, "orelse", [])
+        ok = full_only(wr[0]) and full_only(cl[0]) and cl[0] in sib and sib.index(cl[0]) == sib.index(wr[0]) + 1
+        # and a full batch always reaches them: no other branching between the append and the write
+        ok = ok and sum(1 for s_ in A.walk_stmts(ev.node.body) if isinstance(s_, (ast.If, ast.Try, ast.While, ast.For))) == 1
     ctx.ob("C46.D2-batch-write-then-clear", cname(ev, None, "full batch: write the cache, then clear it"), ok,
            "" if ok else "rows are written twice / dropped at the batch boundary", nontrivial=True, where=where(ev, ev.node))
     ok = "data_cache = self._internal_data_cache[desc_name]" in t and "desc_name = self._desc_nodes[desc_uid].item['id']" in t
